@@ -159,6 +159,35 @@ def _literal_like(node) -> bool:
     return all(isinstance(n, _LITERAL_NODES) for n in ast.walk(node))
 
 
+def record_type(st):
+    """("rectype", name, fields[, defaults]) for a module-level statement that defines a namedtuple type, else None"""
+    if isinstance(st, ast.Assign) and len(st.targets) == 1 and isinstance(st.targets[0], ast.Name) and isinstance(st.value, ast.Call) \
+            and ast.unparse(st.value.func) in ("namedtuple", "collections.namedtuple") and len(st.value.args) == 2 and not st.value.keywords:
+        spec = st.value.args[1]
+        try:
+            fields = ast.literal_eval(spec)
+        except Exception:
+            return None
+        if isinstance(fields, str):
+            fields = fields.replace(",", " ").split()
+        if isinstance(fields, (list, tuple)) and fields and all(isinstance(x, str) and x.isidentifier() for x in fields):
+            return ("rectype", st.targets[0].id, tuple(fields))
+    if isinstance(st, ast.ClassDef) and [ast.unparse(b) for b in st.bases] in (["NamedTuple"], ["typing.NamedTuple"]) and not st.decorator_list:
+        fields, defaults = [], []
+        for b in st.body:
+            if isinstance(b, ast.AnnAssign) and isinstance(b.target, ast.Name):
+                fields.append(b.target.id)
+                if b.value is not None:
+                    if not isinstance(b.value, ast.Constant):
+                        return None
+                    defaults.append((b.target.id, ("const", b.value.value)))
+            elif isinstance(b, ast.Assign):
+                return None
+        if fields:
+            return ("rectype", st.name, tuple(fields), tuple(defaults))
+    return None
+
+
 def _ev_literal(node, consts=None):
     """IR of a literal-like expression outside any function"""
     dummy = ast.parse("def _():\n    pass").body[0]
@@ -228,6 +257,10 @@ class RateModel:
                     if isinstance(st, ast.Assign) and len(st.targets) == 1 and isinstance(st.targets[0], ast.Name) and count.get(st.targets[0].id) == 1 \
                             and not isinstance(st.value, (ast.Name, ast.Attribute)) and _literal_like(st.value):
                         out[st.targets[0].id] = simp(_ev_literal(st.value, out))
+                    # record types: `P = namedtuple("P", ["a", "b"])` / `namedtuple("P", "a b")` / `class P(NamedTuple): a: T; b: T = d`
+                    rt = record_type(st)
+                    if rt is not None and count.get(rt[1], 0) <= 1:
+                        out[rt[1]] = rt
             self._mconsts[file] = out
         return self._mconsts[file]
 
@@ -479,7 +512,12 @@ class RateModel:
             if fn is None or dc in seen:
                 return
             seen.add(dc)
-            fl = Flow(fn, self.pkg.cls(dc).file)
+            # the constructor with the private helpers it delegates registrations to put back (`self._register_all(table)`)
+            try:
+                fn = self.pkg.expanded(dc, "__init__", keep=("register", "unregister"))
+            except AnalysisError:
+                pass
+            fl = Flow(fn, self.pkg.cls(dc).file, consts=self.module_consts(self.pkg.cls(dc).file))
             for f in fl.facts:
                 if f.kind != "call":
                     continue
@@ -550,8 +588,11 @@ def _expand(v, assume, enumerate_conditions=True, depth=0):
         cands = [x[1] for x in walk(pe) if isinstance(x, tuple) and x and x[0] in ("ifexp", "phi") and truthy(x[1]) is None]
         # decide primitive conditions first: a condition that is itself a conditional value follows from them
         prim = [c for c in cands if not any(isinstance(y, tuple) and y and y[0] in ("ifexp", "phi") for y in walk(c))]
+        # ... and atomic conditions before and/or/not compounds of them (`x if a or b else y` next to `u if a else v`): once the
+        # atoms are decided the compound follows, so no inconsistent combination (a or b true, a false, b false) is enumerated
+        atomic = [c for c in prim if c[0] != "bool" and not (c[0] == "unop" and c[1] == "Not")]
         if cands:
-            test = (prim or cands)[0]
+            test = (atomic or prim or cands)[0]
     if test is None:
         yield dict(assume), pe
         return
